@@ -93,6 +93,8 @@ Section Unknown.
   Variable disp : list irule.
   Hypothesis Hdisp : lookup cs CH_FROM_WL = Some disp.
   Hypothesis Hroot : wl_root_ok cs disp = true.
+  (* kube-ipvs mode puts the forward-check detour in front of the workload rules of cali-INPUT: not covered here *)
+  Hypothesis Hipvs : c_ipvs c = false.
 
   (* none of the pre-policy special-case rules of cali-wl-to-host fires (Spec.pre_policy_exempt says when they do) *)
   Definition pre_rules_miss (p : packet) : Prop :=
@@ -183,7 +185,7 @@ Section Unknown.
     lookup cs CH_WL_TO_HOST = Some (wl_to_host c) ->
     I_unk_in p -> is_drop (G cs e (S (S (S n))) (filter_input c) p).
   Proof.
-    intros n p Hw Hp. unfold filter_input, G. rewrite go_app.
+    intros n p Hw Hp. unfold filter_input, input_ipvs_rules. rewrite Hipvs. cbn [opt_rules app]. unfold G. rewrite go_app.
     pose proof (front_dp (S (S (S n))) p Hp) as Hf. unfold G in Hf.
     destruct (go cs e (run (S (S (S n))) cs e) (input_tunnel_rules c ++ input_wg_rules c) p) as [[| |] ?|?|p'| |];
       simpl in Hf; try contradiction; try exact Logic.I.
